@@ -290,13 +290,23 @@ func scalarReflectFromGo(schema *schema_j5pb.Field, value interface{}) (protoref
 		switch val := value.(type) {
 		case json.Number:
 			var err error
-			value, err = val.Float64()
+			if st.Float.Format == schema_j5pb.FloatField_FORMAT_FLOAT32 {
+				// read at 32 bits: through a float64 the text is rounded twice,
+				// which for a few values gives the neighbouring float32
+				value, err = strconv.ParseFloat(val.String(), 32)
+			} else {
+				value, err = val.Float64()
+			}
 			if err != nil {
 				return pv, err
 			}
 		case string:
 			var err error
-			value, err = strconv.ParseFloat(val, 64)
+			if st.Float.Format == schema_j5pb.FloatField_FORMAT_FLOAT32 {
+				value, err = strconv.ParseFloat(val, 32)
+			} else {
+				value, err = strconv.ParseFloat(val, 64)
+			}
 			if err != nil {
 				return pv, err
 			}
